@@ -72,6 +72,19 @@ func reduceRational(rat *big.Rat) slip.Object {
 	return (*slip.Ratio)(rat)
 }
 
+// reduceNumber returns the canonical form of a bignum or ratio result, a
+// fixnum if the value fits and an integer if the denominator is one. Any
+// other object is returned as is.
+func reduceNumber(obj slip.Object) slip.Object {
+	switch to := obj.(type) {
+	case *slip.Bignum:
+		obj = reduceInteger((*big.Int)(to))
+	case *slip.Ratio:
+		obj = reduceRational((*big.Rat)(to))
+	}
+	return obj
+}
+
 // remRatio returns the remainder of n divided by d with the quotient either
 // rounded toward negative infinity (floor, as for mod) or toward zero (as for
 // rem).
